@@ -14,6 +14,7 @@ from __future__ import annotations
 
 import contextlib
 import importlib
+import signal
 
 
 KNOWN_ORDER_KEY = "order:then-on-promise-while-it-notifies"
@@ -23,6 +24,24 @@ class RVErr(Exception):
     def __init__(self, n):
         super().__init__(f"rv{n}")
         self.n = n
+
+
+class HistoryTimeout(BaseException):
+    """The implementation did not finish a history in time.  BaseException on purpose: the wrappers
+    in promise.py catch Exception and would swallow it."""
+
+
+@contextlib.contextmanager
+def time_limit(seconds=2.0):
+    def handler(signum, frame):
+        raise HistoryTimeout()
+    old = signal.signal(signal.SIGALRM, handler)
+    signal.setitimer(signal.ITIMER_REAL, seconds)
+    try:
+        yield
+    finally:
+        signal.setitimer(signal.ITIMER_REAL, 0)
+        signal.signal(signal.SIGALRM, old)
 
 
 class BadRef(Exception):
@@ -112,7 +131,7 @@ class Interp:
 
     def state(self, p):
         """(state, value-object) of a real promise, read from its public flags."""
-        if p.is_pending:
+        if getattr(p, "is_pending", True):
             return ("pending", None)
         if p.is_fulfilled:
             return ("fulfilled", p._value)
@@ -127,6 +146,8 @@ class Interp:
         self.clock += 1
         for i, p in enumerate(self.allocs):
             s, v = self.state(p)
+            if not hasattr(p, "is_pending"):
+                continue   # being constructed right now
             flags = (p.is_pending, bool(p.is_fulfilled), bool(p.is_rejected))
             if flags not in ((True, False, False), (False, True, False), (False, False, True)):
                 self.problems.append(("flags", f"promise {i} has inconsistent flags {flags}"))
@@ -164,9 +185,13 @@ class Interp:
                 r = x if fin[1][0] == "arg" else self.to_py(fin[1][1])
                 rec["outcome"] = ("ret", self.from_py(r))
                 return r
+            except HistoryTimeout:
+                self.dead = True      # do not touch half-constructed objects any more
+                raise
             finally:
                 self.active.pop()
-                self.observe()
+                if not getattr(self, "dead", False):
+                    self.observe()
         return cb
 
     def act(self, a, arg=None):
@@ -341,9 +366,15 @@ class Interp:
 
 def run_history(prog):
     """Run on the real code; returns the Interp (with allocation-indexed results)."""
-    with traced_promise_module() as (pm, allocs):
+    with traced_promise_module() as (pm, allocs), time_limit():
         it = Interp(pm, allocs)
-        it.run(prog)
+        try:
+            it.run(prog)
+        except HistoryTimeout:
+            worst = max(((len(r[side + "_calls"]), r["id"], r["p"], side) for r in it.regs for side in ("res", "rej")),
+                        default=(0, 0, 0, ""))
+            raise HistoryTimeout(f"after {len(it.calls)} callback invocations; the {worst[3]} callback of registration "
+                                 f"{worst[1]} on promise {worst[2]} had run {worst[0]}x") from None
         it.final_states = [it.state_json(i) for i in range(len(allocs))]
         it.findings = it.verdict()
         return it
@@ -416,6 +447,7 @@ class HistGen:
     def __init__(self, rng):
         self.rng = rng
         self.lbl = 0
+        self.hangs = 0
 
     def value(self, n, depth=0, bare_prom=True):
         """bare_prom=False: not a Promise object itself (a promise settled *directly* with a Promise
@@ -499,7 +531,12 @@ class HistGen:
             for _ in range(length):
                 a = self.act(len(allocs), focus, 0, False)
                 prog.append(a)
-                it.act(a)
+                try:
+                    with time_limit():
+                        it.act(a)
+                except (HistoryTimeout, RecursionError):
+                    self.hangs += 1
+                    return prog   # the implementation hangs on this history: let the caller find out
                 if self.rng.random() < 0.3 and len(allocs) > nroots:
                     focus = list(range(nroots)) + [self.rng.randrange(len(allocs))]
         return prog
